@@ -225,15 +225,42 @@ func thorough(c *props.Check, r *core.Report, repo, known string, findings []cor
 	}
 	r.Extra["subagent_seeds"] = map[string]any{"caught": caught, "missed": missed, "not_applicable_on_this_tree": sna, "table": st}
 	fmt.Printf("seeds property=%s caught=%d missed=%d na=%d\n", c.ID, caught, missed, sna)
+	// the kept behaviour-preserving refactorings (written by sub-agents that never saw
+	// the checker): the rules must stay silent on each; informational.
+	silent, alarm, rna := 0, 0, 0
+	var rt []map[string]string
+	for _, x := range refactorTest(c.ID, repo, known) {
+		switch x.Status {
+		case "MISSED":
+			silent++
+		case "NA":
+			rna++
+		default:
+			alarm++
+			rt = append(rt, map[string]string{"id": x.ID, "status": "ALARM", "detail": x.Detail})
+			fmt.Printf("info: %s raises a diagnostic on the behaviour-preserving refactoring %s: %s\n", c.ID, x.ID, x.Detail)
+		}
+	}
+	r.Extra["refactorings"] = map[string]any{"silent": silent, "alarm": alarm, "not_applicable_on_this_tree": rna, "alarms": rt}
+	fmt.Printf("refactorings property=%s silent=%d alarm=%d na=%d\n", c.ID, silent, alarm, rna)
 }
 
 // seedTest runs every kept sub-agent seed of the property in a subprocess.
 func seedTest(id, repo, known string) []mutRes {
-	root := filepath.Join(filepath.Dir(known), "seeded")
+	return patchTest(filepath.Join(filepath.Dir(known), "seeded"), id+"-", id, repo, known)
+}
+
+// refactorTest runs every kept behaviour-preserving refactoring against the rules of
+// one property: each must stay silent ("MISSED" = no diagnostic).
+func refactorTest(id, repo, known string) []mutRes {
+	return patchTest(filepath.Join(filepath.Dir(known), "refactorings"), "", id, repo, known)
+}
+
+func patchTest(root, prefix, id, repo, known string) []mutRes {
 	ents, _ := os.ReadDir(root)
 	var dirs []string
 	for _, e := range ents {
-		if e.IsDir() && strings.HasPrefix(e.Name(), id+"-") {
+		if e.IsDir() && strings.HasPrefix(e.Name(), prefix) {
 			dirs = append(dirs, filepath.Join(root, e.Name()))
 		}
 	}
@@ -241,7 +268,7 @@ func seedTest(id, repo, known string) []mutRes {
 	self, _ := os.Executable()
 	out := make([]mutRes, len(dirs))
 	var wg sync.WaitGroup
-	sem := make(chan struct{}, 8)
+	sem := make(chan struct{}, 12)
 	for i := range dirs {
 		wg.Add(1)
 		go func(i int) {
